@@ -40,9 +40,14 @@ def mod(im, ex):
     return ("mod", dict(im), dict(ex))
 
 
+def is_pre(n):
+    """a third element starting with `-` is a pre-release tag, any other one is build metadata"""
+    return len(n) > 2 and n[2].startswith("-")
+
+
 def name_str(n):
     base, ver = n[0], n[1]
-    return base + ("@%d.%d.%d" % ver if ver else "") + ("+" + n[2] if len(n) > 2 else "")
+    return base + ("@%d.%d.%d" % ver if ver else "") + ((n[2] if is_pre(n) else "+" + n[2]) if len(n) > 2 else "")
 
 
 I, T, Q = "ns:p/i", "ns:p/types", "ns:q/j"
@@ -147,6 +152,18 @@ def contributors():
     one(M, mod({"a::f": ("cfunc", ["i32"], [])}, {"mem": mem1}))   # 58 the import under another signature
     for x in c[44:]:
         x["api_only"] = True
+    # versions whose numeric order is not their textual order
+    one((I, (0, 2, 9)), inst({"a": fA}))                      # 59
+    one((I, (0, 2, 10)), inst({"b": fB}))                     # 60
+    # used types from interfaces without a compatibility track: 0.0.x and a pre-release
+    TZ, TP = (T, (0, 0, 3)), (T, (0, 2, 0), "-rc.1")
+    c.append({"imports": [(TZ, types_r), (I0, using(TZ, types_r))], "agg": [0, 1]})                 # 61
+    c.append({"imports": [(TZ, types_r), (I1, using(TZ, types_r, {"a": fA}))], "agg": [0, 1]})      # 62
+    c.append({"imports": [(TP, types_r), (Q10, using(TP, types_r))], "agg": [0, 1]})                # 63
+    c.append({"imports": [(TP, types_rs), (Q12, using(TP, types_rs, {"a": fA}))], "agg": [0, 1]})   # 64
+    # exports that follow a nested instance in export order
+    one(I0, inst({"s": fA, "n": inst({"x": fA}), "f": fA}))                   # 65
+    one(I0, inst({"s": fA, "n": inst({"x": fA, "y": fB}), "g": fB}))          # 66
     for i, x in enumerate(c):
         x["id"] = i + 1
         x["e2e"] = x["agg"] == list(range(len(x["imports"]))) and not x.get("api_only")
@@ -157,8 +174,9 @@ def contributors():
 def tla_name(n):
     base, ver = n[0], n[1]
     v = "<<%d, %d, %d>>" % ver if ver else "<<>>"
-    build = "TRUE" if len(n) > 2 else "FALSE"
-    return f'[s |-> {tla_str(name_str(n))}, base |-> {tla_str(base)}, ver |-> {v}, pre |-> FALSE, build |-> {build}, iface |-> {"TRUE" if ":" in base else "FALSE"}]'
+    build = "TRUE" if len(n) > 2 and not is_pre(n) else "FALSE"
+    pre = "TRUE" if is_pre(n) else "FALSE"
+    return f'[s |-> {tla_str(name_str(n))}, base |-> {tla_str(base)}, ver |-> {v}, pre |-> {pre}, build |-> {build}, iface |-> {"TRUE" if ":" in base else "FALSE"}]'
 
 
 def tla_fun(d, render):
